@@ -66,8 +66,10 @@ PROPERTIES = {
             "C09_handler_threads_isolated_partial): a call of a handler thread reaches only objects of its own thread "
             "or objects with static storage duration; the mutable ones of the latter are the regenerated inventory",
             "which handler call reaches the singleton's static members is read from the regenerated call-site table "
-            "(callers of common::Singleton<T> members, guarded / unguarded; C09_singleton_callers_modelled); that the "
-            "two guards test the flag set from hfInGroup is read by hand (handler.cpp constructor initialisers)",
+            "(callers of common::Singleton<T> members; per call site the normalised text of the enclosing `if` conditions, "
+            "compared with the expected guard per caller by C09_singleton_callers_modelled: `mUsedByGroup` for "
+            "internAddArgument / addBracketHandler); that mUsedByGroup is set from hfInGroup in both constructors and "
+            "never written afterwards, and that only Groups passes hfInGroup, is read by hand",
             "Singleton<Groups> (singleton.hpp class-statics) is reached only through Groups::instance(): handlers "
             "created with hfInGroup, usage()/--list-arg-groups, evalArgumentString without handler, "
             "addStandardArgument.  A plain handler whose own command line contains -h / --help / --list-arg-groups "
@@ -102,13 +104,21 @@ import os, re, subprocess, sys, threading
 here = os.path.dirname(os.path.abspath(__file__))
 data = sys.stdin.buffer.read()
 res = {}
+LIMIT = 240      # seconds per build and batch; a sanitizer run time that dead locks in its own SEGV handler must not stall the check
 def run(tag):
-    p = subprocess.run([os.path.join(here, "handler_mt_" + tag)], input=data, stdout=subprocess.PIPE, stderr=subprocess.PIPE)
-    out = p.stdout.decode("utf-8", "replace")
+    try:
+        p = subprocess.run([os.path.join(here, "handler_mt_" + tag)], input=data, stdout=subprocess.PIPE, stderr=subprocess.PIPE,
+                           timeout=LIMIT)
+        rc, so, se = p.returncode, p.stdout, p.stderr
+    except subprocess.TimeoutExpired as e:
+        rc, so, se = 97, e.stdout or b"", (e.stderr or b"") + ("\n== %s build: no answer within %d s (hang), killed\n" % (tag, LIMIT)).encode()
+    out = so.decode("utf-8", "replace")
     lines = out.split("\n")
     if lines and lines[-1] == "":
         lines.pop()
-    res[tag] = (p.returncode, lines, p.stderr.decode("utf-8", "replace"))
+    elif lines:
+        lines.pop()          # an incomplete last line of a killed process
+    res[tag] = (rc, lines, se.decode("utf-8", "replace"))
 ts = [threading.Thread(target=run, args=(t,)) for t in ("asan", "tsan")]
 [t.start() for t in ts]
 [t.join() for t in ts]
@@ -204,6 +214,14 @@ def diff_is_failure(prop, p):
     are oracle failures).  A remaining difference to the model driver means the model's sequential semantics
     of a job is not the implementation's: a broken tie, not an interference."""
     return False
+
+
+def problem_rank(prop, p):
+    """which failing input speaks most directly about the property: a stand-alone thread whose result differs from its
+    run alone under a *forced* (deterministic) schedule, then any other oracle failure, then crashes of a sanitizer build"""
+    if p.kind == "oracle":
+        return 0 if "forced=1" in (p.line or "") and "!! mismatch" in (p.impl or "") else 1
+    return 2
 
 
 def nontrivial_key(op, result):
@@ -371,6 +389,73 @@ def help_case(rng, cid, nthreads, reps, forced):
     return Case(cid, lines)
 
 
+GROUP_POOL = [("v,verbose", "flag"), ("c,count", "int"), ("l,list", "vec_int"), ("n,name", "str"), ("w,words", "vec_str"),
+              ("q", "flag"), ("i,input", "str"), ("k,keys", "vec_str")]
+
+
+def pool_thread(rng, t, picks, sep, others, brackets):
+    """arg lines + command line for arguments taken from GROUP_POOL; `brackets`: the command line may contain ( )"""
+    lines, words = [], []
+    for key, kind in picks:
+        lines.append("arg t=%d key=%s kind=%s%s" % (t, key, kind, " sep=" + sep if kind.startswith("vec_") else ""))
+        if rng.random() < 0.1:
+            continue                                  # defined but not used
+        forms = key.split(",")
+        words.append("-" + forms[0] if len(forms) == 1 or rng.random() < 0.6 else "--" + forms[1])
+        if kind == "int":
+            words.append(str(rng.choice([0, 7, 42, 1000])))
+        elif kind == "str":
+            words.append(rng.choice(WORDS) + (rng.choice(others) + rng.choice(WORDS) if others and rng.random() < 0.5 else ""))
+        elif kind == "vec_int":
+            words.append(sep.join(str(rng.randint(0, 99)) for _ in range(rng.choice([1, 3, 4]))))
+        elif kind == "vec_str":
+            words.append(list_value(rng, sep, "vec_str", others))
+    if brackets and len(words) >= 2 and rng.random() < 0.6:
+        # a bracket pair around the arguments from the i-th word on (never between an argument and its value)
+        starts = [i for i, w in enumerate(words) if w.startswith("-")]
+        i = rng.choice(starts)
+        words = words[:i] + ["("] + words[i:] + [")"]
+    return lines, words
+
+
+def group_case(rng, cid, nthreads, reps, forced):
+    """a group thread beside stand-alone threads: one thread obtains its handlers from Groups::instance().getArgHandler(),
+    defines arguments on them, evaluates through Groups::evalArguments and removes them, in a loop; every other thread
+    sets up and evaluates a stand-alone handler that calls addBracketHandler() (before / between / after its arguments)
+    and *shares argument keys* with the group handlers.  The stand-alone handlers were never created by Groups
+    (mUsedByGroup = false): nothing they do may depend on what is registered in the process-wide Groups object.
+    forced=1: every stand-alone job runs between the group thread's registration and its removal."""
+    gt = rng.randrange(nthreads)
+    seps = rng.sample(SEPS, min(len(SEPS), nthreads))
+    gpicks = rng.sample(GROUP_POOL, rng.choice([2, 3, 4]))
+    lines = []
+    for t in range(nthreads):
+        sep = seps[t % len(seps)]
+        others = [x for x in seps if x != sep]
+        if t == gt:
+            m = rng.choice([1, 2, 2, 3])
+            br = rng.choice([-1, -1] + list(range(m)))
+            lines.append("group t=%d handlers=%d loops=%d%s remove=%s" % (
+                t, m, 2 if forced else rng.choice([6, 10, 16]), " brackets=%d" % br if br >= 0 else "", rng.choice(["each", "all"])))
+            al, words = pool_thread(rng, t, gpicks, sep, others, br >= 0)
+        else:
+            k = rng.choice([1, 2, 2, 3])
+            shared = rng.sample(gpicks, min(len(gpicks), rng.choice([1, 1, 2]))) if rng.random() < 0.85 else []
+            rest = [x for x in GROUP_POOL if x not in shared]
+            picks = (shared + rng.sample(rest, max(0, k - len(shared))))[:max(k, len(shared))]
+            rng.shuffle(picks)
+            r = rng.random()
+            at = None if r < 0.15 else (0 if r < 0.35 else (len(picks) if r < 0.8 else rng.randint(0, len(picks))))
+            has_br = at is not None or t % 2 == 1
+            if at is not None:
+                lines.append("bracket t=%d at=%d" % (t, at))
+            al, words = pool_thread(rng, t, picks, sep, others, has_br)
+        lines += al
+        lines.append("argv t=%d %s" % (t, " ".join(words)))
+    lines.append("run n=%d reps=%d seed=%d%s" % (nthreads, reps, rng.randint(1, 10 ** 6), " forced=1" if forced else ""))
+    return Case(cid, lines)
+
+
 def workload(rng, cid, nthreads, reps, simple_ratio):
     nsep = rng.choice([2, 3, 4, len(SEPS)])
     all_seps = rng.sample(SEPS, nsep)
@@ -463,6 +548,12 @@ def generate(prop, tier, seed, scale=1):
     yield ("usage threads (-h on the own command line: Handler::usage -> Singleton<Groups>), first use forced "
            "through the sync points of instance() / free running"), \
         [help_case(rng, "h%d" % i, n, 3, i % 3 != 2) for i, n in enumerate(hsizes)]
+    ngroup = (9 if tier == "quick" else 60) * (3 if directed else 1)
+    gsizes = sorted(([2, 2, 3, 4, 3, 8] * (ngroup // 6 + 1))[:ngroup])
+    yield ("a group thread beside stand-alone threads (handlers of Groups::instance() registered / evaluated / removed in a "
+           "loop while stand-alone handlers with shared keys call addBracketHandler), stand-alone jobs forced between "
+           "registration and removal / free running"), \
+        [group_case(rng, "p%d" % i, n, 3 if i % 3 != 2 else reps, i % 3 != 2) for i, n in enumerate(gsizes)]
     sizes = sorted(([2, 3, 2, 4, 8, 2, 16, 4] * (nsat // 8 + 1))[:nsat])
     sat = [saturated_case(rng, "s%d" % i, n, reps if n <= 8 else max(3, reps // 2)) for i, n in enumerate(sizes)]
     for k in range(0, len(sat), 8):
